@@ -29,6 +29,10 @@ SCENARIOS = {
     "different-vars": [("t", "HH", [0, 3]), ("t", "HV", [2, 5])],
     "pickled-copy": [("t", "HH", [0, 3]), ("p", "HH", [2, 5])],
     "pickled-copy-other-var": [("t", "HH", [1, 4]), ("p", "HV", [0, 2])],
+    # integer (single-line) selections take their own path through the indexing code
+    "same-var-single-lines": [("t", "HH", 1), ("t", "HH", 3)],
+    "same-var-line-then-slice": [("t", "HH", 4), ("t", "HH", [0, 3])],
+    "copy-single-lines": [("t", "HH", 0), ("p", "HH", 4)],
     "three-threads": [("t", "HH", [0, 3]), ("t", "HH", [2, 5]), ("t", "HV", [1, 4])],
     "three-threads-copy": [("t", "HH", [0, 2]), ("p", "HH", [3, 5]), ("p", "HV", [0, 5])],
 }
@@ -73,6 +77,10 @@ def setup():
     return _ctx
 
 
+def rows_of(sel):
+    return sel if isinstance(sel, int) else slice(sel[0], sel[1])
+
+
 def label(ev):
     return (ev[0], ev[1].rsplit("/", 1)[-1], ev[3], ev[4])
 
@@ -85,12 +93,12 @@ def scenario(name, lines):
     def make(s):
         out = {}
         vfs.HOOK[0] = lambda ev: sched.Sched.current and sched.Sched.current.yield_point(label(ev))
-        for i, (which, img, (a, b)) in enumerate(threads):
-            def body(i=i, which=which, img=img, a=a, b=b):
+        for i, (which, img, sel) in enumerate(threads):
+            def body(i=i, which=which, img=img, sel=sel):
                 if tracer:
                     sys.settrace(tracer)
                 try:
-                    out[i] = np.asarray(c[which][f"imagery/{img}/data"].isel(rows=slice(a, b)).values)
+                    out[i] = np.asarray(c[which][f"imagery/{img}/data"].isel(rows=rows_of(sel)).values)
                 finally:
                     if tracer:
                         sys.settrace(None)
@@ -104,14 +112,15 @@ def scenario(name, lines):
         bad = []
         if isinstance(s.error, sched.Deadlock):
             bad.append(("deadlock", f"no enabled thread: {s.error}"))
-        for i, (which, img, (a, b)) in enumerate(threads):
+        for i, (which, img, sel) in enumerate(threads):
+            want = c["ref"][img][rows_of(sel)]
             if i in s.exceptions:
-                bad.append(("thread-raises", f"thread {i} ({img}[{a}:{b}]): {type(s.exceptions[i]).__name__}: {str(s.exceptions[i])[:100]}"))
+                bad.append(("thread-raises", f"thread {i} ({img}[{sel}]): {type(s.exceptions[i]).__name__}: {str(s.exceptions[i])[:100]}"))
             elif i not in out:
                 if not bad:
                     bad.append(("thread-unfinished", f"thread {i} did not finish"))
-            elif out[i].tobytes() != c["ref"][img][a:b].tobytes() or out[i].shape != c["ref"][img][a:b].shape:
-                bad.append(("wrong-values", f"thread {i} ({which}:{img}[{a}:{b}]) loaded {out[i].tolist()} instead of {c['ref'][img][a:b].tolist()}"))
+            elif out[i].tobytes() != want.tobytes() or out[i].shape != want.shape:
+                bad.append(("wrong-values", f"thread {i} ({which}:{img}[{sel}]) loaded {out[i].tolist()} instead of {want.tolist()}"))
         return bad
 
     return make, judge
@@ -177,15 +186,15 @@ def free_running(rounds=200):
             out = {}
             barrier = threading.Barrier(len(threads))
 
-            def body(i, which, img, a, b):
+            def body(i, which, img, sel):
                 barrier.wait()
-                out[i] = np.asarray(trees[which][f"imagery/{img}/data"].isel(rows=slice(a, b)).values)
+                out[i] = np.asarray(trees[which][f"imagery/{img}/data"].isel(rows=rows_of(sel)).values)
 
-            ths = [threading.Thread(target=body, args=(i, w, img, a, b)) for i, (w, img, (a, b)) in enumerate(threads)]
+            ths = [threading.Thread(target=body, args=(i, w, img, sel)) for i, (w, img, sel) in enumerate(threads)]
             [t.start() for t in ths]
             [t.join(30) for t in ths]
-            for i, (w, img, (a, b)) in enumerate(threads):
-                if i not in out or out[i].tobytes() != ref[img][a:b].tobytes():
+            for i, (w, img, sel) in enumerate(threads):
+                if i not in out or out[i].tobytes() != ref[img][rows_of(sel)].tobytes():
                     bad += 1
                     print(f"FREE-RUNNING-MISMATCH scenario={name} thread={i}")
     print(f"free-running rounds={rounds} scenarios={len(SCENARIOS)} mismatches={bad}")
@@ -198,16 +207,16 @@ def plan(tier):
         bounds = (0, 1, 2, 3) if len(threads) == 2 else (0, 1, 2)
         for b in bounds:
             jobs.append({"scenario": name, "bound": b, "lines": False})
-        if tier == "thorough" and name in ("same-var-overlap", "different-vars", "pickled-copy"):
+        if tier == "thorough" and name in ("same-var-overlap", "different-vars", "pickled-copy", "same-var-single-lines", "same-var-line-then-slice"):
             jobs.append({"scenario": name, "bound": 2, "lines": True})
-        elif tier == "quick" and name in ("same-var-overlap", "different-vars"):
+        elif tier == "quick" and name in ("same-var-overlap", "different-vars", "same-var-single-lines"):
             jobs.append({"scenario": name, "bound": 1, "lines": True})
     return jobs
 
 
 def run(res, tier, seed):
     res.rule = (
-        "scenarios {same variable overlapping/disjoint groups, different variables, original+pickled copy (same/other variable),"
+        "scenarios {same variable overlapping/disjoint groups, single-line (integer) selections, different variables, original+pickled copy (same/other variable),"
         " three threads, three threads with copies} x preemption bound 0..3 (2 threads) / 0..2 (3 threads) at filesystem+lock yield"
         " points; line-granular yield points inside ceos_alos2 at bound 1 (quick) / 2 (thorough). states = distinct event orders"
         " observed, transitions = scheduling decisions executed, traces = complete schedules executed on the real threads; the"
